@@ -134,9 +134,12 @@ def record_trace(kind, sig, cuts, flushes=None):
     ev = []
     pos = 0
     arr = np.asarray(sig, dtype=np.float64)
+    buf = np.empty(max(list(cuts) + [1]), dtype=np.float64)     # one re-used read buffer, overwritten after every call (see rf.run_chunked)
     for i, c in enumerate(cuts):
         fl = bool(flushes[i]) if flushes else False
-        det.process(arr[pos:pos + c], flush=fl) if fl else det.process(arr[pos:pos + c])
+        buf[:c] = arr[pos:pos + c]
+        det.process(buf[:c], flush=fl) if fl else det.process(buf[:c])
+        buf[:] = 7.7e77
         pos += c
         p = rf.project(det, kind)
         ev.append({'chunk': [int(x) for x in sig[pos - c:pos]], 'flush': fl, 'cyc': [list(x) for x in p['cyc']], 'rv': list(p['rv']),
